@@ -270,7 +270,10 @@ func BuildGenesis(app *exocoreapp.ExocoreApp, cfg Config) (*Genesis, error) {
 	var vals []dogfoodtypes.GenesisValidator
 	avsTotal := sdkmath.LegacyZeroDec()
 	totalPower := int64(0)
-	price0, _ := sdkmath.NewIntFromString(asset0.Price)
+	price0, okp := sdkmath.NewIntFromString(asset0.Price)
+	if !okp {
+		price0 = sdkmath.OneInt() // no genesis price: the default price (1, 0 decimals) applies
+	}
 	for _, o := range cfg.Operators {
 		opInfos = append(opInfos, operatortypes.OperatorDetail{
 			OperatorAddress: o.Acct.Acc.String(),
